@@ -319,6 +319,8 @@ def vectors(tier):
     S = set()
 
     def add(v):
+        if v[0] == "none" and all(x in ("absent", "none") for x in v[1:]):
+            return  # no argument at all = interactive prompt mode, which the property excludes
         if v not in S:
             S.add(v)
             seen.append(v)
